@@ -29,28 +29,25 @@ TRUSTED = ['users.getUserId(x) (recognition of the sender and resolution of name
            'command words are given in canonical spelling (plugin name first); nested commands and Python str.lower() on cased non-ASCII '
            'letters are outside the model (generator stays in ASCII plus uncased whitespace code points)',
            'expiring ignores (`admin ignore add <mask> <seconds>`) are modelled only for the literal forms the generator uses',
-           'C02_grow_only_entitled (capabilities grow only through an entitled add) is NOT a Coq theorem in this development: it is checked by '
-           'the direct oracle on the implementation and, through the model, by the correspondence; proved are the owner clauses',
-           'reload theorem: the starting database is well formed (wf_state: in particular hashed passwords) and stored hostmasks are single '
-           'tokens at reload points (hosts_dom; `user hostmask add "a!b@c\\n"` is accepted by isUserHostmask and falls outside: harmless on '
-           'the live bot, the written blank line is skipped, but not covered by the theorem)']
+           'reload theorem: the starting database is well formed (wf_state: in particular hashed passwords); nothing else is assumed']
 ASSUMPTIONS = ['world.testing/log.testing off; Python asserts enabled', 'owner-only commands and direct file edits are not available to the actors',
                'the owner account never speaks; no other plugin is loaded', 'login timeout (databases.users.timeoutIdentification) is 0 (default)']
 LEVEL_TEXT = ('Coq theorems over an executable Gallina model of the account/capability commands of the User, Admin and Channel plugins with their '
               'converter lists, the dispatch gates (checkIgnored, checkCommandCapability), newUser/setUser/delUser and flush+reload, built on the '
               'C03 (capability algebra, checkCapability), C04 (hostmask matching), C13 (tokenizer) and C16 (users.conf writer/reader) models: for '
-              'every history of commands (any caller, any recognition oracle) the in-memory owner set never grows; with the repairs of C02.F1 '
-              '(user names validated by register/changename) and C02.F43 (capability tokens in admin capability add) well-formedness of the '
-              'accounts for users.conf is an invariant of all histories, and from a well-formed database no history of commands, flushes and '
-              'reloads adds an owner, whatever the id/name/hostmask collisions (own reader theorem, C02/Reader.v); the only domain condition left '
-              'is that stored hostmasks are single tokens at reload points.  The clause "capabilities grow only through an entitled add" is '
-              'checked by the direct oracle and the correspondence, not by a theorem.')
+              'every history of commands (any caller, any recognition oracle) the in-memory owner set never grows, and a capability appears in an '
+              'account only at a step that is an Admin capability add past the admin gate for a non-owner capability the caller may give, or a '
+              'Channel capability add by a holder of #channel,op (new accounts start empty; reloads never add a capability); with the repairs of '
+              'C02.F1 and C02.F43 well-formedness of the accounts for users.conf is an invariant of all histories, and from a well-formed database '
+              '(hashed passwords) no history of commands, flushes and reloads adds an owner, whatever the id/name/hostmask collisions and trailing '
+              'newlines in hostmasks (own reader theorem, C02/Reader.v).')
 LEVEL_NOTE = ('Trusted: Coq kernel, gen_tables.py, extraction + driver, harness; recognition of the sender (users.getUserId on hostmasks) is an '
               'oracle input; the tie to the source is the regenerated converter/default tables plus the differential live run.')
 TECHNIQUE = 'Coq proof (induction over command histories, invariant on owner sets, composition with C16 round trip) + regenerated tables + extracted-model differential correspondence on a live bot'
 EXPLANATION = 'C02: model coq/C02/Model.v; theorems coq/C02/Props.v'
 
-ACTORS = {'anon': 'anon!a@host.anon', 'plain': 'plain!p@host.plain', 'adm': 'adm!m@host.adm'}
+ACTORS = {'anon': 'anon!a@host.anon', 'plain': 'plain!p@host.plain', 'adm': 'adm!m@host.adm',
+          'odd': 'o!*@?'}      # fewer than 3 non-wildcard characters: addHostmask raises inside `user register`
 OWNER_MASK = 'boss!o@host.owner'
 DEFAULT_OFF = ['-halfop', '-op', '-protected', '-voice']
 
@@ -396,7 +393,7 @@ def gen_step(rng, hostile):
         return {'op': 'flush'}
     if r < 0.16:
         return {'op': 'reload'}
-    actor = rng.choice(['anon', 'plain', 'adm', 'adm'])
+    actor = rng.choice(['anon', 'plain', 'adm', 'adm'] * 4 + ['odd'])
     ch = rng.choice
 
     PW_OF = {'plain': 'ppw', 'adm': 'apw', 'boss': 'bpw', 'PLAIN': 'ppw'}
